@@ -26,6 +26,14 @@ pub uninterp spec fn the_class(n: &Node) -> Option<&ClassType>;
 pub uninterp spec fn assign_fits(value_ty: TypeLayout, place_ty: TypeLayout, n: &Node) -> bool;
 #[verifier::external_body] pub fn assign_eq_complex(value_ty: &TypeLayout, place_ty: &TypeLayout, n: &Node) -> (r: bool) ensures r == assign_fits(*value_ty, *place_ty, n) { unimplemented!() }
 pub struct Reassignment { pub path: ReassignmentPath, pub value: Value }
+// ---- the `.field` step of a path
+pub uninterp spec fn path_type(p: ReassignmentPath) -> Option<TypeLayout>;          // ReassignmentPath::for_type
+pub uninterp spec fn as_self(t: TypeLayout) -> TypeLayout;                           // assume_type_of_self
+pub uninterp spec fn is_module_ty(t: TypeLayout) -> bool;                            // the type (wrappers looked through) is a module
+impl ReassignmentPath { #[verifier::external_body] pub fn for_type(&self) -> (r: Result<TypeLayout, VErr>) ensures r is Ok <==> path_type(*self) is Some, r is Ok ==> r->Ok_0 == path_type(*self)->Some_0 { unimplemented!() } }
+#[verifier::external_body] pub fn assume_type_of_self(t: TypeLayout) -> (r: TypeLayout) ensures r == as_self(t) { unimplemented!() }
+#[verifier::external_body] pub fn type_is_module(t: &TypeLayout) -> (r: bool) ensures r == is_module_ty(*t) { unimplemented!() }
+#[verifier::external_body] pub fn parse_dot_chain(op: Node, t: &TypeLayout) -> (r: Result<(PathRest, TypeLayout), VErr>) { unimplemented!() }
 #[verifier::external_body] pub fn span_of(n: &Node) -> (r: Span) { unimplemented!() }
 """
 
@@ -70,13 +78,37 @@ def build(repo):
         Rule("R1", "let hint = $$e ;", "", why="diagnostic text"),
     ], log, "Parser::reassignment")
     check_closed(br, "Parser::reassignment")
-    gen = header(log, f"{FILE}: parse_path (arm Rule::ident, after the lookup), Parser::reassignment") + prelude("parser.rs") + SPEC + f"""
+    # ---- parse_path, postfix arm Rule::dot_chain
+    try:
+        armd = extract_match_arm(fp["body"], "Rule :: dot_chain")
+    except Exception as e:
+        raise Undecided(f"parse_path: arm Rule::dot_chain not found: {e}")
+    bd = translate(armd["body"], [
+        Rule("R3", ". details ( $$a )", "", why="diagnostic text dropped"),
+        Rule("R3", ". to_err_vec ( ) ?", "?", why="error vector wrapper dropped"),
+        Rule("R6", "lhs_ty . assume_type_of_self ( & user_data )", "assume_type_of_self ( lhs_ty )", why="abstract"),
+        Rule("R6", "matches ! ( lhs_ty . disregard_distractors ( false ) , TypeLayout :: Module ( .. ) )", "type_is_module ( & lhs_ty )", why="kind test on the (unwrapped) type: abstract predicate"),
+        Rule("R6", "Parser :: dot_chain ( Node :: new_with_user_data ( op , Rc :: clone ( & user_data ) ) , Cow :: Borrowed ( & lhs_ty ) , ) ?", "parse_dot_chain ( op , & lhs_ty ) ?", why="sub-parser abstract"),
+        Rule("R1", "expected_type . into_owned ( )", "expected_type", why="Cow::into_owned"),
+    ], log, "parse_path[dot_chain]")
+    check_closed(bd, "parse_path[dot_chain]")
+    gen = header(log, f"{FILE}: parse_path (arm Rule::ident, after the lookup; postfix arm Rule::dot_chain), Parser::reassignment") + prelude("parser.rs") + SPEC + f"""
 //@ OBL C10.reassign.path-ident
 // the root of an assignment path: its const flag is the variable's const flag, whether the variable is the function's own or captured
 pub fn path_ident(ident: &Ident, is_callback: bool, primary: &Node) -> (r: Result<(ReassignmentPath, Span, bool), VErr>)
     ensures r is Ok ==> r->Ok_0.2 == ident.read_only && r->Ok_0.0 is Ident && r->Ok_0.0->Ident_0.name == ident.name && r->Ok_0.0->Ident_0.read_only == ident.read_only,
 {{
 {render(bi, 1)}
+}}
+
+//@ OBL C10.reassign.path-field
+// `p.field` as an assignment target: const when p is, and ALWAYS const when p is a module (through whatever name the module is reached):
+// the members of a module are not written from outside it
+pub fn path_field(lhs: Result<(ReassignmentPath, Span, bool), VErr>, op: Node) -> (r: Result<(ReassignmentPath, Span, bool), VErr>)
+    ensures r is Ok ==> lhs is Ok && path_type(lhs->Ok_0.0) is Some
+        && (lhs->Ok_0.2 ==> r->Ok_0.2) && (is_module_ty(as_self(path_type(lhs->Ok_0.0)->Some_0)) ==> r->Ok_0.2),
+{{
+{render(bd, 1)}
 }}
 
 //@ OBL C10.reassign.const-rejected
@@ -96,11 +128,11 @@ pub fn reassignment(input: Node) -> (r: Result<Reassignment, VErr>)
 }} // verus!
 fn main() {{}}
 """
-    obls = [Obl("C10.reassign.path-ident", ["C10", "C11"], fn="parse_path[Rule::ident]", desc="parse_path, root name: the reported const flag is the variable's const flag, captured or not"),
+    obls = [Obl("C10.reassign.path-field", ["C10", "C11"], fn="parse_path[Rule::dot_chain]", desc="parse_path, `.field` step: const when the object is, always const when the object is a module"), Obl("C10.reassign.path-ident", ["C10", "C11"], fn="parse_path[Rule::ident]", desc="parse_path, root name: the reported const flag is the variable's const flag, captured or not"),
             Obl("C10.reassign.const-rejected", ["C10", "C03", "C02", "C11"], fn="Parser::reassignment", desc="Parser::reassignment: a path whose root is const is rejected; the value's type must fit the place")]
     return gen, obls, log
 
 
 UNITS = [VUnit("c10_reassign", ["C10", "C03", "C02", "C11"], "element / field assignment: const root rejected, type fits", build)]
-UNITS[0].assumes = ["parse_path is a Pratt-parser closure: only the root-name arm (after the scope lookup) is a fragment under contract; the postfix arms (index, field) pass the flag on unchanged (by inspection: `is_const` is forwarded) -- not under contract",
+UNITS[0].assumes = ["parse_path is a Pratt-parser closure: only the root-name arm (after the scope lookup) is a fragment under contract; the index step passes the flag on unchanged (by inspection) -- not under contract; the field step is obligation C10.reassign.path-field",
                     "pest API, sub-parsers, the compatibility test abstract; diagnostics dropped"]
